@@ -3,7 +3,7 @@
    (Unix ms) in overflow mode m; the right-hand sides are arithmetic on unbounded N (mathematical integers):
    the theorem says the Rust arithmetic agrees with them on the whole u8/u64/u128 range and never aborts.
    Quantified over every bundle in the decoder's image (C07_decoded_shape).  Statements only. *)
-From BP7 Require Import Base.Prelude Gen.Consts Model.Types Model.Validate Model.Ops Proofs.DecodeImage Proofs.OpsProofs.
+From BP7 Require Import Base.Prelude Gen.Consts Model.Types Model.Validate Model.Ops Model.Api Model.WfExt Proofs.DecodeImage Proofs.OpsProofs Proofs.ApiProofs.
 
 Theorem C08_update_exact : forall m clock node rt b,
   decodable_shape b = true -> MS1970_TO2K <= clock -> rt < two128 ->
@@ -22,6 +22,16 @@ Theorem C08_frame : forall node rt b,
   b_primary (forwarded node rt b) = b_primary b /\
   Forall2 only_data_differs (b_canonicals b) (b_canonicals (forwarded node rt b)).
 Proof. exact forwarded_frame. Qed.
+
+(* update_extensions as bundle.rs writes it - the block is selected by extension_block_by_type_mut, then hop_count_get /
+   hop_count_increase / hop_count_exceeded, previous_node_update, bundle_age_get / bundle_age_update are applied to it in
+   place (Model/Api.v) - IS the function the theorems above are about, for every bundle whose hop counts are u8 values *)
+Theorem C08_code_structure : forall m clock node rt b, hop_u8 (b_canonicals b) = true ->
+  update_extensions_api m clock node rt b = update_extensions m clock node rt b.
+Proof. exact update_extensions_api_eq. Qed.
+Theorem C08_code_structure_wf : forall m clock node rt b, wf_bundle_u b = true ->
+  update_extensions_api m clock node rt b = update_extensions m clock node rt b.
+Proof. intros m clock node rt b H. apply update_extensions_api_eq, wf_hop_u8, H. Qed.
 
 (* non-vacuity and the boundary witnesses of the defects repaired in /repo *)
 Definition ex_fwd (hop : N * N) (age life t : N) : bundle :=
@@ -42,3 +52,5 @@ Proof. vm_compute. reflexivity. Qed.
 Print Assumptions C08_update_exact.
 Print Assumptions C08_update_total.
 Print Assumptions C08_frame.
+Print Assumptions C08_code_structure.
+Print Assumptions C08_code_structure_wf.
